@@ -16,6 +16,7 @@ type Config struct {
 	Horizon      int           // maximal number of transitions per execution
 	NoCache      bool          // disable the happens-before state cache
 	NoReduce     bool          // disable the begin/spawn/join persistent-set reduction
+	Canonical    bool          // explore ONE schedule only: the running thread goes on while it can, else the lowest enabled one (size-ladder drivers)
 	Symmetry     bool          // merge states that differ by a permutation of interchangeable workers (SpawnSym)
 	Budget       time.Duration // wall-clock budget; 0 = none.  Hitting it makes the result non-exhaustive.
 	MaxExec      int64
@@ -417,6 +418,10 @@ func (e *Explorer) Explore(mk func() Run) *Stats {
 					fmt.Println("INFRASTRUCTURE:", st.Why)
 				}
 			}
+		}
+		if e.Cfg.Canonical {
+			st.BoundUsed = "canonical schedule only"
+			break
 		}
 		// alternatives
 		for i := len(points) - 1; i >= len(prefix); i-- {
